@@ -47,5 +47,6 @@ int fam_baddims(const vh_args_t *a);
 int fam_threads(const vh_args_t *a);
 int fam_omp(const vh_args_t *a);
 int fam_prog(const vh_args_t *a);
+void vh_firstuse_cases(void);
 void vh_fill_profile(mzd_t *M, int style);
 #endif
